@@ -84,6 +84,10 @@ def build_instance(world, spec, others):
                 child = object.__getattribute__(cur, "__dict__").get(name)
                 if child is not None:
                     try:
+                        # (on a private copy: a transform may have put the very same object into a keyed container,
+                        # which cannot know that one of its elements lost its key)
+                        child = copy.deepcopy(child)
+                        setattr(cur, name, child)
                         del child.k
                     except ops.CLEAN:
                         pass
